@@ -13,6 +13,7 @@ import json
 import os
 import random
 import re
+import threading
 import warnings
 
 from ..core import Check, fresh_repo_imports, seed
@@ -28,13 +29,13 @@ SEPS = ["", "\n", " \n\t", "\n\n  "]
 
 
 _ENVS: dict = {}
-_LOOP = None
+_LOOPS: dict = {}
 
 
 def _env(tpl, mode="strict"):
-    """One environment per process and mode; only the loader's templates change from case to case."""
+    """One environment per process, thread and mode; only the loader's templates change from case to case."""
     from liquid import DictLoader
-    key = (os.getpid(), mode)
+    key = (os.getpid(), threading.get_ident(), mode)
     if key not in _ENVS:
         _ENVS[key] = harness.make_env(extra=True, mode=mode)
     _ENVS[key].loader = DictLoader(dict(tpl))
@@ -42,10 +43,15 @@ def _env(tpl, mode="strict"):
 
 
 def _await(coro):
-    global _LOOP
-    if _LOOP is None or _LOOP[0] != os.getpid():
-        _LOOP = (os.getpid(), asyncio.new_event_loop())
-    return _LOOP[1].run_until_complete(coro)
+    key = (os.getpid(), threading.get_ident())
+    if key not in _LOOPS:
+        _LOOPS[key] = asyncio.new_event_loop()
+    return _LOOPS[key].run_until_complete(coro)
+
+
+def _close_loops():
+    for key in [k for k in _LOOPS if k[0] == os.getpid()]:
+        _LOOPS.pop(key).close()
 
 
 # ---------------------------------------------------------------------------------------------------------------------
@@ -231,9 +237,7 @@ def _warn_fmt(tpl, src):
     from liquid.exceptions import LiquidError
     env = _env(tpl, "warn")
     try:
-        with warnings.catch_warnings(record=True):
-            warnings.simplefilter("always")
-            env.from_string(src, name="main")
+        env.from_string(src, name="main")     # warnings are silenced for the whole run (catch_warnings is not thread-safe)
     except LiquidError:
         pass
     except Exception as e:
@@ -318,20 +322,62 @@ def judge(observations):
 DEVS = ["ExprStart", "LiquidStart", "Indent", "ParentName", "Pipe"]
 
 
+def _pmap(fn, items):
+    """A replay costs well under a millisecond; forking pays off only for the thorough tier's lists."""
+    items = list(items)
+    if len(items) < 30000:
+        return [fn(x) for x in items]
+    return par.pmap(fn, items, procs=8, chunk=512)
+
+
+def _span_stage(cases):
+    """-> (ordered cases, list of per-case failure lists)"""
+    uniq = {}
+    for c in cases:     # simulation revisits states; order deterministically
+        uniq.setdefault((c["src"], json.dumps(c["ps"], sort_keys=True)), c)
+    cases = [uniq[k] for k in sorted(uniq)]
+    jobs = [(c, i) for i, c in enumerate(cases)]
+    return cases, _pmap(replay_span, jobs)
+
+
+def _error_stage(kind, jobs):
+    """Replay a malformed family, then let SpansTrace.tla judge the distinct observations.
+    -> dict(results=[(label, source, partials, notes)], verdicts=[(observation, verdict, label, source, partials)], tlc=result)"""
+    if kind == "errors":
+        res = _pmap(replay_err, jobs)
+        srcs = [(c["src"], {p["name"]: p["text"] for p in c["ps"]}) for c, _ in jobs]
+    else:
+        res = _pmap(replay_bp, jobs)
+        srcs = [(conc_bp(s, v), {}) for s, _, v in jobs]
+    obs_list, owner, index, per_case = [], [], {}, []
+    for (label, obs, notes), (src, parts) in zip(res, srcs):
+        per_case.append((label, src, parts, notes, len(obs)))
+        for o in obs:
+            key = json.dumps(o, sort_keys=True)
+            if key not in index:
+                index[key] = len(obs_list)
+                obs_list.append(o)
+                owner.append((label, src, parts))
+    verdicts, rj = judge(obs_list)
+    return {"cases": per_case, "verdicts": [(o, v) + w for o, v, w in zip(obs_list, verdicts, owner)], "tlc": rj}
+
+
 def run(tier: str) -> int:
     fresh_repo_imports()
     import time
+    from concurrent.futures import ThreadPoolExecutor, as_completed
     ck = Check(PID, tier)
     rnd = random.Random(seed())
     quick = tier == "quick"
     t0 = time.time()
     timing = ck.cov.setdefault("timing_s", {})
-    jobs, names = [], []
+    jobs = {}
+    warnings.simplefilter("ignore")     # the message of a warn-mode warning is still formatted before it is dropped
 
     def add(name, module, cfg, **kw):
-        names.append(name)
-        jobs.append((module, cfg, kw))
+        jobs[name] = (module, cfg, kw)
 
+    results, span_out, err_out = {}, None, {}
     try:
         emit = "INVARIANT Emit"
         if quick:
@@ -342,9 +388,10 @@ def run(tier: str) -> int:
         else:
             add("spans", "Spans", gen_cfg("cfg/Spans.tmpl", dict(MaxSegs=3, MaxRich=1, Level=2, Family="spans", Dev="none", Extra=emit), "s1"), workers=6, timeout=3000)
             add("spans-pairs", "Spans", gen_cfg("cfg/Spans.tmpl", dict(MaxSegs=2, MaxRich=2, Level=1, Family="spans", Dev="none", Extra=emit), "s2"), workers=6, timeout=3000)
-            add("spans-simulate", "Spans", gen_cfg("cfg/Spans.tmpl", dict(MaxSegs=5, MaxRich=3, Level=2, Family="spans", Dev="none", Extra=emit), "s3"),
-                workers=2, timeout=3000, simulate="num=4000", depth=6, seed=seed() + 20)
-            add("errors", "Spans", gen_cfg("cfg/Spans.tmpl", dict(MaxSegs=3, MaxRich=1, Level=2, Family="errors", Dev="none", Extra=emit), "e1"), workers=4, timeout=3000)
+            add("spans-simulate", "Spans", gen_cfg("cfg/Spans.tmpl", dict(MaxSegs=5, MaxRich=3, Level=1, Family="spans", Dev="none", Extra=emit), "s3"),
+                workers=4, timeout=3000, simulate="num=600", depth=6, seed=seed() + 20)
+            add("errors", "Spans", gen_cfg("cfg/Spans.tmpl", dict(MaxSegs=2, MaxRich=1, Level=2, Family="errors", Dev="none", Extra=emit), "e1"), workers=4, timeout=3000)
+            add("errors-3", "Spans", gen_cfg("cfg/Spans.tmpl", dict(MaxSegs=3, MaxRich=1, Level=1, Family="errors", Dev="none", Extra=emit), "e2"), workers=4, timeout=3000)
             devs = DEVS
             bpL = 4
         for dv in devs:   # each deviation of the offset mechanism must break the property on the abstract source (the invariant is not vacuous)
@@ -355,108 +402,108 @@ def run(tier: str) -> int:
                 continue
             add("bp-" + nm, "BlockParser", gen_cfg("cfg/BlockParser.tmpl", dict(Alphabet=alpha, MaxLen=bpL, NestLimit=c21.NEST if nm != "extra" else 8, Extra="INVARIANT Emit"), "b" + nm),
                 workers=1, timeout=3000, extra=["-maxSetSize", "4000000"])
-        results = dict(zip(names, run_many(jobs, parallel=8)))
+        # pipeline: a family is replayed (and its errors judged) as soon as its generator is done, while the others still run
+        with ThreadPoolExecutor(max_workers=len(jobs) + 4) as ex:
+            futs = {ex.submit(run_tlc, m, c, **kw): nm for nm, (m, c, kw) in jobs.items()}
+            stage = {}
+            for f in as_completed(list(futs)):
+                nm = futs[f]
+                results[nm] = r = f.result()
+                timing["tlc " + nm] = round(time.time() - t0, 1)
+                if r.violated or nm.startswith("dev-"):
+                    continue
+                if nm.startswith("errors") and all(n in results for n in jobs if n.startswith("errors")) and not any(results[n].violated for n in jobs if n.startswith("errors")):
+                    uniq = {}
+                    for n in sorted(jobs):
+                        if n.startswith("errors"):
+                            for c in results[n].emitted:
+                                uniq.setdefault((c["src"], json.dumps(c["ps"], sort_keys=True)), c)
+                    stage["errors"] = ex.submit(_error_stage, "errors", [(uniq[k], i) for i, k in enumerate(sorted(uniq))])
+                elif nm.startswith("bp-") and all(n in results for n in jobs if n.startswith("bp-")) and not any(results[n].violated for n in jobs if n.startswith("bp-")):
+                    bp = sorted((c["seq"], c21.ALPHABETS[n[3:]][1]) for n in jobs if n.startswith("bp-") for c in results[n].emitted if c["seq"])
+                    bp = [(s, e, i) for i, (s, e) in enumerate(bp)]
+                    if len(bp) > 15000:
+                        bp = sorted(rnd.sample(bp, 15000))
+                    stage["blockparser"] = ex.submit(_error_stage, "blockparser", bp)
+                elif nm.startswith("spans") and all(n in results for n in jobs if n.startswith("spans")) and not any(results[n].violated for n in jobs if n.startswith("spans")):
+                    stage["spans"] = ex.submit(_span_stage, [c for n in sorted(jobs) if n.startswith("spans") for c in results[n].emitted])
+            if "spans" in stage:
+                span_out = stage["spans"].result()
+                timing["span_replay_done"] = round(time.time() - t0, 1)
+            for k in ("errors", "blockparser"):
+                if k in stage:
+                    err_out[k] = stage[k].result()
+                    timing[k + "_judged"] = round(time.time() - t0, 1)
     finally:
         cleanup_gen()
+        _close_loops()
 
-    timing["tlc_generation"] = round(time.time() - t0, 1)
-    span_cases, err_cases, bp_jobs = [], [], []
-    for nm, r in results.items():
+    for nm in jobs:
+        r = results[nm]
         ck.tlc(("BlockParser " if nm.startswith("bp-") else "Spans ") + nm, r)
         if nm.startswith("dev-"):
             if r.violated != "ItemsPointAtNames":
                 raise MachineryError(f"deviation {nm} does not violate ItemsPointAtNames (violated={r.violated!r}): the invariant does not bind\n" + r.out[-1500:])
-            continue
-        if r.violated:
+        elif r.violated:
             ck.fail(f"{'BlockParser' if nm.startswith('bp-') else 'Spans'}.tla {r.violated} violated ({nm})", {"tlc": r.out[-3000:]})
-            continue
-        if nm.startswith("spans"):
-            span_cases += r.emitted
-        elif nm == "errors":
-            err_cases += r.emitted
-        else:
-            bp_jobs += [(c["seq"], c21.ALPHABETS[nm[3:]][1], i) for i, c in enumerate(r.emitted) if c["seq"]]
     if ck.violations:
         return ck.finish()
-    # de-duplicate (simulation revisits states) and order deterministically
-    uniq = {}
-    for c in span_cases:
-        uniq.setdefault((c["src"], json.dumps(c["ps"], sort_keys=True)), c)
-    span_cases = [uniq[k] for k in sorted(uniq)]
-    err_cases.sort(key=lambda c: (c["src"], json.dumps(c["ps"], sort_keys=True)))
-    bp_jobs.sort(key=lambda j: (j[0], j[1]))
-    bp_jobs = [(s, e, i) for i, (s, e, _) in enumerate(bp_jobs)]
-    if not quick and len(bp_jobs) > 40000:
-        bp_jobs = rnd.sample(bp_jobs, 40000)
     ck.cov["rule"] = (
-        "Spans.tla: sources of <=%s segments, one (thorough: also two adjacent, and three in simulated 5-segment sources) from the full family - output statements "
+        "Spans.tla: sources of <=3 segments, one (thorough: also two adjacent, and three in simulated 5-segment sources) from the full family - output statements "
         "over 9 path shapes (dotted, nested variable, quoted / bracketed segments, quoted root, hyphen/question-mark names) x 4 filter chains with path arguments; "
         "assign / capture / if-else-elsif / unless / case-when / for (limit, offset, reversed, else, break, range) / tablerow / with / macro+call / echo / cycle / "
         "increment / decrement / inline comment / comment block / raw; include and render (bare, with..as, keyword arguments, for..as) of partials holding text lines, "
         "outputs, assign, a liquid tag, a nested include; {%% liquid %%} tags of 1-5 lines in %s indentation/blank-line layouts - in %s whitespace styles "
-        "(tight, padded, whitespace control, newlines inside the markup), each preceded/followed by context segments (multi-line text, output, liquid tag); "
-        "expected (kind, name, template, offset, line, column) of every name occurrence is computed by the specification. Malformed family: %s"
-        % ("3" if quick else "3", "4" if quick else "6", "3" if quick else "6",
-           "41 malformed output/tag shapes x styles, 9 malformed liquid-tag lines x layouts x position, 19 malformed partial bodies under include/render, "
-           "each alone or with a context segment before/after; plus every BlockParser.tla token sequence of length <= %d over five alphabets, joined with "
-           "four separators (none, newline, mixed white space, blank line + indentation); every raised error is judged by SpansTrace.tla" % bpL))
+        "(tight, padded, whitespace control, newlines inside the markup), each preceded/followed by context segments (multi-line text, output%s); "
+        "expected (kind, name, template, offset, line, column) of every name occurrence is computed by the specification. Malformed family: "
+        "39 malformed output/tag shapes x styles, 9 malformed liquid-tag lines x layouts x position, 19 malformed partial bodies under include/render, "
+        "each alone or with %s before/after; plus every BlockParser.tla token sequence of length <= %d over %s alphabets, joined with "
+        "four separators (none, newline, mixed white space, blank line + indentation); every raised error is judged by SpansTrace.tla"
+        % ("4" if quick else "6", "3" if quick else "6", "" if quick else ", liquid tag, comment block, assign", "one context segment" if quick else "one context segment of the larger context family or two of the smaller",
+           bpL, "two" if quick else "five (a seeded sample of 15 000 of them)"))
 
     # ---- spans ----
-    sjobs = [(c, i) for i, c in enumerate(span_cases)]
-    for (case, variant), fails in zip(sjobs, par.pmap(replay_span, sjobs, chunk=64)):
+    span_cases, span_fails = span_out
+    for case, fails in zip(span_cases, span_fails):
         ck.case((case["src"], json.dumps(case["ps"], sort_keys=True)), nontrivial=any(i["o"] > 0 for i in case["items"]))
         ck.validated()
         for what, detail, sig in fails[:2]:
             detail["expected_items"] = [(i["k"], i["n"], i["tn"], i["o"]) for i in case["items"]]
             ck.fail(what, detail, sig="span:" + sig)
-    timing["span_replay"] = round(time.time() - t0 - timing["tlc_generation"], 1)
-    t1 = time.time()
     # ---- errors ----
-    ejobs = [(c, i) for i, c in enumerate(err_cases)]
-    eres = par.pmap(replay_err, ejobs, chunk=64) + par.pmap(replay_bp, bp_jobs, chunk=256)
-    srcs = [(c["src"], {p["name"]: p["text"] for p in c["ps"]}) for c, _ in ejobs] + [(conc_bp(s, v), {}) for s, _, v in bp_jobs]
-    obs_list, owner = [], []
-    index = {}
-    stats = {"parsed_without_error": 0, "errors_without_token": 0, "observations": 0}
-    for n, ((label, obs, notes), (src, parts)) in enumerate(zip(eres, srcs)):
-        ck.case(("err", src, json.dumps(parts, sort_keys=True)), nontrivial=bool(obs))
-        ck.validated()
-        for note in notes:
-            if note == "parsed":
-                stats["parsed_without_error"] += 1
-                if label != "blockparser":
-                    ck.cov.setdefault("malformed_shapes_that_parsed", [])
-                    if len(ck.cov["malformed_shapes_that_parsed"]) < 5:
-                        ck.cov["malformed_shapes_that_parsed"].append({"label": label, "source": src})
-            elif note == "error without a token":
-                stats["errors_without_token"] += 1
-            elif note.startswith("non-Liquid"):
-                pass    # C02's concern; no Liquid error to look at
-            else:
-                ck.fail("malformed partial family: " + note, {"source": src, "partials": parts, "label": label}, sig="err:parent:" + label)
-        for o in obs:
-            stats["observations"] += 1
-            key = json.dumps(o, sort_keys=True)
-            if key not in index:
-                index[key] = len(obs_list)
-                obs_list.append(o)
-                owner.append((label, src, parts))
+    stats = {"parsed_without_error": 0, "errors_without_token": 0, "observations": 0, "distinct_observations": 0}
+    for fam in ("errors", "blockparser"):
+        out = err_out[fam]
+        ck.tlc("SpansTrace %s (judgement of %d distinct observations)" % (fam, len(out["verdicts"])), out["tlc"])
+        stats["distinct_observations"] += len(out["verdicts"])
+        for label, src, parts, notes, nobs in out["cases"]:
+            ck.case(("err", src, json.dumps(parts, sort_keys=True)), nontrivial=nobs > 0)
+            ck.validated()
+            stats["observations"] += nobs
+            for note in notes:
+                if note == "parsed":
+                    stats["parsed_without_error"] += 1
+                    if label != "blockparser":
+                        shown = ck.cov.setdefault("malformed_shapes_that_parsed", [])
+                        if len(shown) < 5:
+                            shown.append({"label": label, "source": src})
+                elif note == "error without a token":
+                    stats["errors_without_token"] += 1
+                elif note.startswith("non-Liquid"):
+                    pass    # C02's concern; no Liquid error to look at
+                else:
+                    ck.fail("malformed partial family: " + note, {"source": src, "partials": parts, "label": label}, sig="err:parent:" + label)
+        for o, v, label, src, parts in out["verdicts"]:
+            if v != "ok":
+                shown = {k: o[k] for k in ("idx", "line", "col", "mline", "mcol", "fmt", "val", "lo")}
+                cls = label.split(":")[0] if label.startswith(("liquid:", "assign:")) else ("blockparser" if label == "blockparser" else "shape")
+                ck.fail(f"parse error position: clause {v} of SpansTrace.tla does not hold ({label})",
+                        {"source": src, "partials": parts, "label": label, "observation": shown, "token_source": o["src"], "expected_source": o["exp"]},
+                        sig=f"err:{v}:{cls}")
     ck.cov["error_family"] = stats
-    timing["error_replay"] = round(time.time() - t1, 1)
-    t1 = time.time()
-    verdicts, rj = judge(obs_list)
-    timing["judgement"] = round(time.time() - t1, 1)
-    ck.tlc("SpansTrace (judgement of %d distinct observations)" % len(obs_list), rj)
-    for o, v, (label, src, parts) in zip(obs_list, verdicts, owner):
-        if v != "ok":
-            shown = {k: o[k] for k in ("idx", "line", "col", "mline", "mcol", "fmt", "val", "lo")}
-            ck.fail(f"parse error position: clause {v} of SpansTrace.tla does not hold ({label})",
-                    {"source": src, "partials": parts, "label": label, "observation": shown, "token_source": o["src"], "expected_source": o["exp"]},
-                    sig=f"err:{v}:{label.split(':')[0] if label.startswith(('liquid:', 'assign:')) else ('blockparser' if label == 'blockparser' else 'shape')}")
+    timing["total"] = round(time.time() - t0, 1)
     for c in span_cases[:: max(1, len(span_cases) // 3)][:3]:
         ck.sample({"source": c["src"], "partials": {p["name"]: p["text"] for p in c["ps"]}, "expected": [(i["k"], i["n"], i["tn"], i["o"], i["ln"], i["cl"]) for i in c["items"]]})
-    for c in err_cases[:: max(1, len(err_cases) // 2)][:2]:
-        ck.sample({"malformed": c["src"], "partials": {p["name"]: p["text"] for p in c["ps"]}, "construct": [(i["n"], i["tn"], i["o"]) for i in c["items"] if i["k"] == "bad"]})
     ck.assumptions += [
         "exact equality with the specification's occurrence list is claimed for the generated family only; `globals` is checked to be a subset of the variable "
         "occurrences (which names are in scope is C19/C14's subject); tag analysis is expected not to look inside {% liquid %} tags nor inside comment/raw blocks",
